@@ -26,12 +26,16 @@ class Undecided(Exception):
 class X:
     """extraction request"""
     def __init__(self, ident, header, anchor, nth=0, rules=(), members=(), count=None, within=None,
-                 common=True):
+                 common=True, kind='body'):
         self.__dict__.update(locals())
         del self.__dict__['self']
 
     def run(self):
         hdr = self.header if '/' in self.header else 'boost/gil/' + self.header
+        if self.kind == 'expr':
+            e = ex.extract_expr(self.ident, hdr, self.anchor, self.rules, self.members, self.within, self.common)
+            e.inline = True
+            return e
         return ex.extract(self.ident, hdr, self.anchor, self.nth, self.rules, self.members,
                           self.count, self.within, self.common)
 
@@ -45,7 +49,7 @@ class Check:
     """
     def __init__(self, name, harness, engine='S', enforce=None, replace=(), loops=False, flags=(),
                  inputs=(), timeout=None, unwind=None, tier='quick', defines=(), object_bits=None,
-                 expect_fail=(), partition=None, zopts=None, gi_flags=(), replay=None, no_vacuity=False):
+                 expect_fail=(), partition=None, zopts=None, gi_flags=(), replay=None, no_vacuity=False, small=()):
         self.__dict__.update(locals())
         del self.__dict__['self']
 
@@ -151,8 +155,9 @@ def run_probe(unit, inst, wd):
         raise Undecided('binding probe does not compile for %s/%s: %s' % (unit.name, iname, err[-1500:]))
     rc, out, err, _ = sh([exe], timeout=60)
     if rc != 0:
-        raise Undecided('binding probe failed for %s/%s' % (unit.name, iname))
-    return out
+        raise Undecided('binding probe failed for %s/%s: %s' % (unit.name, iname, err[-300:]))
+    plain = ''.join('#define %s %s\n' % (k, v) for k, v in macros.items() if not k.startswith('T_') and not v.startswith('"'))
+    return plain + out
 
 
 def instantiate(unit, inst, wd):
@@ -177,7 +182,7 @@ def instantiate(unit, inst, wd):
         extracted.append(e)
         if hole not in text:
             raise Undecided('template of %s has no hole %s' % (unit.name, hole))
-        text = text.replace(hole, e.banner() + '\n' + e.text)
+        text = text.replace(hole, (e.banner() + '\n' + e.text) if not getattr(e, 'inline', False) else e.text.strip())
     left = re.findall(r'@@\w+@@', text)
     if left:
         raise Undecided('unfilled holes in %s: %s' % (unit.name, left))
